@@ -134,7 +134,7 @@ def ofDObs (o : DObs) : Sexp :=
 def ofObs (o : Obs) : Sexp :=
   .list [o.status, ofNats o.ord, ofNats o.ext, .list (o.dss.map ofDObs)]
 
-def maskOf (thr : Int) (v : Option Val) : Option (List Bool) := v.map (·.map (fun x => decide (x > thr)))
+def maskOf := selectGt
 
 /-- The model's prediction of the observation after a step. -/
 def modelObs (univ : List Cid) (thr : Int) (s : MState) (st : Status) (py : Obs) : Obs :=
